@@ -107,6 +107,7 @@ def run(ctx: Ctx, rep: Report) -> None:
     rep.rule("C09-R2", "the data returned derives from the message that was verified", floor=2)
     rep.rule("C09-R3", "exact 12-octet digest comparison over the message with zeroed digest; arguments bound correctly", floor=8)
     rep.rule("C09-R4", "a foreign user name raises before anything is accepted", floor=1)
+    rep.rule("C09-R5", "every incoming v3 message is vetted by the USM instance of the message-processing model (never by a model the message names)", floor=3)
     rep.assumptions += [
         "HMAC-MD5-96 / HMAC-SHA-96 are unforgeable without the key (cryptographic strength is not analysed)",
         "atoms assumed on the analysed paths: credentials.auth is set, isinstance(credentials, V3)",
@@ -214,6 +215,11 @@ def run(ctx: Ctx, rep: Report) -> None:
     outs = simulate(cfg, auth_env(ctx, proc, creds, [], set(), extra=user_env), expand=defs.expand)
     ok = bool(found) and bool(outs) and all(o.kind == "raise" for o in outs)
     rep.check(ok, "C09-R4", proc.site(), "a message whose user name differs from the credentials' raises on every path", f"user-name comparisons found: {len(found)}; outcomes: {outs}", key=f"{proc.key}|foreign-user-accepted")
+
+    # ---- R5 the model that vets the message
+    from .common import check_incoming_model
+
+    check_incoming_model(ctx, rep, "C09-R5", 3, 3)
 
     # ---- R2 provenance of the result
     msg_param = proc.params[1]
